@@ -50,3 +50,15 @@ add("C11", "constructor wiring `self.time_limit = …` and the `done` comparison
 add("C15", "adapter state machines over an arbitrary Env and free keys: reset_uses_schedule (i-th reset after seeding uses left(right^i(seed))), reseed_reproducible, "
            "step_relays (terminated iff discount = 0, truncated iff LAST), multiToSingle_only_aggregates; real Gym/dm_env/MultiToSingle adapters on every catalogue "
            "environment vs the native API driven with the key terms the model prescribes (evaluated with the real jax.random.split)", _wnote)
+
+add("C10", "certificate => advertised invariant theorems per generator (recursive-division certificate => all free cells 4-connected and even cells free; "
+           "random walk from the goal => reachable and solvable for every draw tape; tril+transpose => symmetric loop-free graph; generator post-conditions for "
+           "valid draws); the Lean-defined certificates are evaluated on the instances the real generators produce for many keys; key dependence checked",
+    _note + " PRNG draws are parameters: theorems quantify over all draws in the stated support; that real draws lie in the support is checked per instance.")
+
+add("C01", "the declared specs of every catalogue configuration are generated from the real spec objects into Gen/Specs.lean and proved well-formed with "
+           "generate_value a member (decide +kernel over the whole table + the general theorem generate_valid); step counters stay within [0, time_limit] "
+           "(counting argument), reward/discount shapes from the protocol theorem; every emitted observation/reward/discount of all 23 classes validated by "
+           "the real spec.validate and by the Lean model of validate; shapes and dtypes for all inputs via jax.eval_shape",
+    _note + " Value bounds of observation fields are proved only for the modelled counters and, per environment, through the L1 models; for the other fields the "
+    "conformance is established by the search (every emitted value validated).")
